@@ -222,6 +222,10 @@ def case_strategy(draw):
         datas = [bytes(draw(st.lists(st.sampled_from(list(b"abxcdqef")), min_size=2, max_size=6))) for _ in range(3)]
         return prog, argv, datas, []
     fam = draw(st.integers(0, 9))
+    if fam == 2:
+        prog, datas = draw(gen.yield_overflow_program())
+        k = draw(st.integers(0, len(datas) - 5))
+        return prog, list(prog.argv) + draw(options.codegen_options(indirect=None)), datas[k:k + 5], []
     if fam in (0, 1):
         prog, datas = draw(gen.break_loop_program() if fam == 0 else gen.last_foreach_program())
         argv = list(prog.argv) + draw(options.codegen_options(indirect=None))
